@@ -111,6 +111,14 @@ func (ev *c15r6Eval) operand(e ast.Expr) (val int64, isVal bool, set map[int64]b
 			}
 		}
 	}
+	if sel, ok := e.(*ast.SelectorExpr); ok && ev.varSet != nil {
+		// a byte field of the scanner whose writes all pin it to a small set (the quote kept in a field)
+		if o, ok := ev.info.Uses[sel.Sel].(*types.Var); ok && o.IsField() {
+			if s, ok := ev.varSet(o); ok {
+				return 0, false, s, true
+			}
+		}
+	}
 	return 0, false, nil, false
 }
 
@@ -660,11 +668,89 @@ func c15TextLoopModel(r *Run, R string) *c15TextLoop {
 		}
 		setCache[o], setOK[o] = nil, false
 		v, isVar := o.(*types.Var)
-		if !isVar || v.IsField() || !c15IsByte(v.Type()) || v.Pkg() == nil || v.Parent() == v.Pkg().Scope() {
+		if !isVar || !c15IsByte(v.Type()) || v.Pkg() == nil || v.Parent() == v.Pkg().Scope() {
 			return nil, false
 		}
 		set := map[int64]bool{}
 		good := true
+		// refers reports whether e names o: the identifier of a local, or a selector of the field
+		refers := func(e ast.Expr) bool {
+			switch x := ast.Unparen(e).(type) {
+			case *ast.Ident:
+				return !v.IsField() && (info.Uses[x] == o || info.Defs[x] == o)
+			case *ast.SelectorExpr:
+				return v.IsField() && info.Uses[x.Sel] == o
+			}
+			return false
+		}
+		if v.IsField() {
+			// a field of the scanner: starts at zero; every write outside the scanning function must be a
+			// constant, and no literal may set it positionally or take its address
+			set[0] = true
+			for _, file := range scan.Pkg.Syntax {
+				ast.Inspect(file, func(n ast.Node) bool {
+					if n == ast.Node(scan.Decl.Body) {
+						return false
+					}
+					switch x := n.(type) {
+					case *ast.AssignStmt:
+						for i, l := range x.Lhs {
+							if !refers(l) {
+								continue
+							}
+							if len(x.Lhs) != len(x.Rhs) || x.Tok != token.ASSIGN {
+								good = false
+							} else if iv, ok := intValue(info, x.Rhs[i]); ok {
+								set[iv] = true
+							} else {
+								good = false
+							}
+						}
+					case *ast.IncDecStmt:
+						if refers(x.X) {
+							good = false
+						}
+					case *ast.UnaryExpr:
+						if x.Op == token.AND && refers(x.X) {
+							good = false
+						}
+					case *ast.CompositeLit:
+						tv, ok := info.Types[x]
+						if !ok || tv.Type == nil {
+							return true
+						}
+						st, ok := tv.Type.Underlying().(*types.Struct)
+						if !ok {
+							return true
+						}
+						has := false
+						for i := 0; i < st.NumFields(); i++ {
+							if st.Field(i) == v {
+								has = true
+							}
+						}
+						if !has {
+							return true
+						}
+						for _, el := range x.Elts {
+							kv, ok := el.(*ast.KeyValueExpr)
+							if !ok {
+								good = false // positional literal of the scanner
+								continue
+							}
+							if k, ok := kv.Key.(*ast.Ident); ok && info.Uses[k] == o {
+								if iv, ok := intValue(info, kv.Value); ok {
+									set[iv] = true
+								} else {
+									good = false
+								}
+							}
+						}
+					}
+					return true
+				})
+			}
+		}
 		addRhs := func(rhs ast.Expr, at ast.Node) {
 			if iv, ok := intValue(info, rhs); ok {
 				set[iv] = true
@@ -707,8 +793,7 @@ func c15TextLoopModel(r *Run, R string) *c15TextLoop {
 			switch x := n.(type) {
 			case *ast.AssignStmt:
 				for i, l := range x.Lhs {
-					id, ok := ast.Unparen(l).(*ast.Ident)
-					if !ok || (info.Uses[id] != o && info.Defs[id] != o) {
+					if !refers(l) {
 						continue
 					}
 					if len(x.Lhs) != len(x.Rhs) || (x.Tok != token.ASSIGN && x.Tok != token.DEFINE) {
@@ -729,11 +814,11 @@ func c15TextLoopModel(r *Run, R string) *c15TextLoop {
 					}
 				}
 			case *ast.IncDecStmt:
-				if id, ok := ast.Unparen(x.X).(*ast.Ident); ok && info.Uses[id] == o {
+				if refers(x.X) {
 					good = false
 				}
 			case *ast.UnaryExpr:
-				if id, ok := ast.Unparen(x.X).(*ast.Ident); ok && x.Op == token.AND && info.Uses[id] == o {
+				if x.Op == token.AND && refers(x.X) {
 					good = false
 				}
 			}
